@@ -32,6 +32,9 @@ if os.path.exists(outp):
     for l in open(outp):
         r = json.loads(l); done.add((r['file'], r['n']))
 jobs = [m for m in map(json.loads, open(src)) if m['result'] == 'survived' and (m['file'], m['n']) not in done]
+INCL = re.compile(sys.argv[5]) if len(sys.argv) > 5 else None
+if INCL:
+    jobs = [m for m in jobs if INCL.search(m['file'])]
 random.Random(7).shuffle(jobs)
 jobs = jobs[:MAX]
 print(len(jobs), 'survivors to run', flush=True)
